@@ -112,6 +112,10 @@ def run(ctx):
             return
     if check_hashes(ctx, cases):
         return
+    # one record written, changed in place (list elements, command arguments, a digest hash withdrawn), written again: the
+    # bytes of every write decode to what the record held at that moment
+    if c01.rewrite_after_mutation_cases(ctx):
+        return
     # what the writer emits for descriptor histories (same-name, identifier-coincident, nested, grouped descriptors; 1-3
     # writers): every record frame refers to a descriptor frame written before it that defines the record's own type
     from vf.props import c03
